@@ -1,6 +1,6 @@
 import Heathcliff.Proofs.C14S
 import Heathcliff.Proofs.C14T
-import Heathcliff.Proofs.GenSerP
+import Heathcliff.Proofs.GenSerC
 /-
   C14  Serialization round-trips every object exactly, sizes exact, across contexts.
 
@@ -325,6 +325,13 @@ theorem gen_limited_source_round_trip (q v : Nat) (hq : q < 2 ^ 64) (hv : v < q)
   rw [HC.GS.gl_read_u64_limited _ (HC.GS.gl_u64Limit_le q hq) _ hb]
   exact limited_round_trip q v hv rest
 
+/-- CIPHERTEXT LEVEL (skeleton readings: context lookup = the level, ciphertext = the view `CtV`): generated `Ciphertext::serialize_full`
+    on an in-memory stream appends exactly `ctFullC.enc` (seeded objects: `k·N + 1 + 8` words) and returns its length -/
+theorem gen_ct_serialize_full_produces_enc : type_of% @HC.GS.c14g_ct_serialize_full := @HC.GS.c14g_ct_serialize_full
+
+/-- its refusals: shape mismatch before anything is written; scheme `None` after 41 header bytes -/
+theorem gen_ct_serialize_full_refusals : type_of% @HC.GS.c14g_ct_serialize_full_refusals := @HC.GS.c14g_ct_serialize_full_refusals
+
 /-! non-vacuity of the phase-4i statements -/
 example : HC.GenS.plain_deserialize ((HC.GenS.plain_serialize HC.GS.idealStream ⟨[1, 2, 3, 4], [7, 8], 4607182418800017408⟩ []).2 ++ [9, 9])
     = .ok (⟨[1, 2, 3, 4], [7, 8], 4607182418800017408⟩, [9, 9]) := by rfl
@@ -332,7 +339,15 @@ example : (HC.GenS.params_serialize HC.GS.idealStream ⟨1, 8, [17, 257], 65537,
     (.ok 42, [1, 8,0,0,0,0,0,0,0, 2,0,0,0,0,0,0,0, 17,0,0,0,0,0,0,0, 1,1,0,0,0,0,0,0, 1,0,1,0,0,0,0,0, 1]) := by rfl
 example : HC.GenS.params_deserialize (HC.GenS.params_serialize HC.GS.idealStream ⟨1, 8, [17, 257], 65537, true⟩ []).2
     = .ok (⟨1, 8, [17, 257], 65537, true⟩, []) := by rfl
-example : HC.GenS.ct_serialized_size ⟨[1, 2, 3, 4], 3, 8, [17, 65537]⟩ ⟨[1, 2, 3, 4], 2, true, 0, 1, false, [], fun _ => []⟩ = .ok (32 + 8 + 1 + 8 + 1 + 2 * 8 * 1 + 2 * 8 * 3) := by rfl
-example : HC.GenS.ct_serialized_terms_size ⟨[1, 2, 3, 4], 1, 8, [17]⟩ ⟨[1, 2, 3, 4], 0, true, 0, 1, false, [], fun _ => []⟩ 3 = .error .overflow := by rfl
+example : HC.GenS.ct_serialized_size ⟨[1, 2, 3, 4], 3, 8, [17, 65537]⟩ ⟨[1, 2, 3, 4], 2, true, 0, 1, false, [], fun _ => [], 2, 8⟩ = .ok (32 + 8 + 1 + 8 + 1 + 2 * 8 * 1 + 2 * 8 * 3) := by rfl
+example : HC.GenS.ct_serialized_terms_size ⟨[1, 2, 3, 4], 1, 8, [17]⟩ ⟨[1, 2, 3, 4], 0, true, 0, 1, false, [], fun _ => [], 1, 8⟩ 3 = .error .overflow := by rfl
+/-- `serialize_full` of a seeded BGV ciphertext at a level with one modulus, N = 2: the hypotheses of `gen_ct_serialize_full_produces_enc`
+    hold and 32 + 8 + 1 + 8 + 8 + (2 + 1 + 8)·8 = 145 bytes are produced -/
+example :
+    let ctx : Ctx := ⟨[⟨[1, 2, 3, 4], 3, 2, [17]⟩], 5, 2⟩
+    let c : CtFull := ⟨[1, 2, 3, 4], 2, false, 4607182418800017408, 1, [3, 4, 18446744073709551615, 1, 2, 3, 4, 5, 6, 7, 8]⟩
+    c.pid.length = 4 ∧ ((ctx.find c.pid).getD noLevel).scheme = 3 ∧ fullSent ((ctx.find c.pid).getD noLevel) c = 11 ∧
+    (HC.GenS.ct_serialize_full HC.GS.idealStream ((ctx.find c.pid).getD noLevel) (HC.GS.ctvOfFull ((ctx.find c.pid).getD noLevel) c) []).1 = .ok 145 := by
+  refine ⟨rfl, rfl, rfl, rfl⟩
 
 end HC.C14
